@@ -87,7 +87,8 @@ theorem evs_sound (P : Prog) {x : St × G} (h : XReach P x) :
   simp at heq
   obtain ⟨rfl, rfl, rfl⟩ := heq
   obtain ⟨he, hd⟩ := hB.arr m' e (handled_arrived hI hin)
-  exact hU.sound e m' he hd
+  have := hU.sound e he
+  rw [hd] at this; exact this.box
 
 theorem evs_nodup (P : Prog) {x : St × G} (h : XReach P x) : (evs x).Nodup := by
   obtain ⟨hB, hU, _⟩ := xreach_invs P h
